@@ -95,6 +95,8 @@ def run(ctx):
         lines.append("%d %d %s %s %s %s %s %s" % (kind, p, mat_line(M1), mat_line(M2), fmt(fsr), fmt(fsc), fmt(ssr), fmt(ssc)))
     def keyfn(line, code):
         t = line.split()
+        if code == 140 and t[0] == "5" and t[1] == "2":
+            return "threesum-compose-char2-integer-TU-test"
         if code == 142 and t[0] == "5":
             # special-line lists are the last four length-prefixed lists
             vals = list(map(int, t))
